@@ -6,6 +6,7 @@
   `index(pitch) − index(bottom line of the clef) + index(E4)`, with the same accidental.
 -/
 import KernModel.Gkern
+import KernProofs.C10Doc
 import KernProofs.Lemmas.PitchStr
 namespace KM.C10
 open KM Pitch Gkern
